@@ -99,12 +99,10 @@ pub fn run_policy(ctx: &mut Ctx, scn: &StoreScn) {
             return;
         }
     };
-    // the predicate as the statement gives it (strict), from the store's own statistics
-    let d2 = s.h.verif_dump();
-    let predicate = !never && d2.stats.iter().any(|st| st.dead_bytes > cfg.trig_dead || frag(st.dead_keys, st.live_keys) > cfg.trig_frag);
-    if predicate != s.h.verif_can_merge() && !never {
-        ctx.sim.probe("predicate_disagrees_with_can_merge");
-    }
+    // the predicate as the statement gives it (strict), from the statistics taken while the
+    // store was quiet (after the reopen the worker may already have merged: with jitter 1.0 the
+    // first tick can come at once)
+    let predicate = !never && d.stats.iter().any(|st| st.dead_bytes > cfg.trig_dead || frag(st.dead_keys, st.live_keys) > cfg.trig_frag);
     let interval_ns = cfg.check_interval_ms * 1_000_000;
     let bound_ns = (interval_ns as f64 * (1.0 + cfg.jitter)).ceil() as u64 + 1_000;
     // no client action from here on: only let time pass
